@@ -34,7 +34,8 @@ theorem lf_shape {n m : Nat} {nb : Nbrs} {s s1 : LS} (hc : Core n s) (hg : GInv 
     InvOf s.op.order.toList s1.flPermInv ∧ s1.bestOrbits = Disjoint.new n ∧
     (s1.bestPath.len = n ∧ s1.bestPath.WF) ∧ (s1.flPath.len = n ∧ s1.flPath.WF) ∧
     (∀ i, i < s.path.length → s1.bestPath.toList[i]? = s.path.reverse[i]?) ∧
-    (∀ i, i < s.path.length → s1.flPath.toList[i]? = s.path.reverse[i]?) := by
+    (∀ i, i < s.path.length → s1.flPath.toList[i]? = s.path.reverse[i]?) ∧
+    s1.gens = s.gens ∧ s1.flOrbits = Disjoint.new n := by
   have holen : s.op.order.toList.length = n := by rw [Sl.length_toList _ hc.part.wfOrder, hc.part.lenOrder]
   unfold leafNode at h
   dsimp only at h
@@ -64,7 +65,7 @@ theorem lf_shape {n m : Nat} {nb : Nbrs} {s s1 : LS} (hc : Core n s) (hg : GInv 
         Sl.copyFrom_toList _ hg.flLen.2 _ (by rw [hvlen, hg.flLen.1])
       have hfpT : (s.flPermInv.copyFrom bestPermInv'.toList).toList = bestPermInv'.toList :=
         Sl.copyFrom_toList _ hg.pinv.2 _ (by rw [Sl.length_toList _ hbpiW, hbpiL, hg.pinv.1])
-      refine ⟨rfl, rfl, rfl, by show s.count + 1 = 1; omega, rfl, hcbT, hflT, hbpT, r3, ?_, r4, ?_, ?_, ?_, ?_⟩
+      refine ⟨rfl, rfl, rfl, by show s.count + 1 = 1; omega, rfl, hcbT, hflT, hbpT, r3, ?_, r4, ?_, ?_, ?_, ?_, rfl, ?_⟩
       · intro i x hx
         show (s.flPermInv.copyFrom bestPermInv'.toList).toList[x]? = some i
         rw [hfpT]; exact r3 i x hx
@@ -74,6 +75,8 @@ theorem lf_shape {n m : Nat} {nb : Nbrs} {s s1 : LS} (hc : Core n s) (hg : GInv 
         exact lf_copy_prefix hbp.2 _ (by rw [List.length_reverse, hbp.1]; exact hplen) (by rw [List.length_reverse]; exact hi)
       · intro i hi
         exact lf_copy_prefix hfp.2 _ (by rw [List.length_reverse, hfp.1]; exact hplen) (by rw [List.length_reverse]; exact hi)
+      · show (Sl.copyFrom ⟨s.flOrbits, s.flOrbits.size⟩ bestOrbits'.toList).data = Disjoint.new n
+        rw [copyFrom_data_full _ _ (by rw [r4]; simp [Disjoint.new, hg.orbSz.1]), r4]
     · cases h
     · cases h
 
@@ -183,12 +186,16 @@ variable {n m : Nat} {nb : Nbrs} {rf : Nat} {r : IR.St}
 set_option linter.unusedVariables false in
 set_option maxHeartbeats 1000000 in
 include hnb hA hD hlenm in
-/-- the first leaf -/
-theorem dfs_leaf_first (lv : List (Nat × Nat)) (s s1 : LS) (gh : Gh) (hI : MInv n m nb s)
+/-- the first leaf, with the new ghost data and the new state explicit -/
+theorem dfs_leaf_first_v (lv : List (Nat × Nat)) (s s1 : LS) (gh : Gh) (hI : MInv n m nb s)
     (hlv : LevelsOK s.op s.path s.choices lv) (hleaf : s.op.binDividers.len = n)
     (hJ : CertM n m nb lv false s) (h : DNodev n nb rf r gh lv s) (hs1 : leafNode n m s = .ok s1)
     (hJ1 : CertA n m nb lv s1) (hcnt : s.count = 0) :
-    ∃ lv1, LevelsOK s1.op s1.path s1.choices lv1 ∧ DA n nb rf r lv1 s1 := by
+    ∃ lv1, LevelsOK s1.op s1.path s1.choices lv1 ∧
+      DAv n nb rf r { vs := gh.vs.dropLast, oF := s.op.order.toList, vsF := gh.vs, vsB := gh.vs, bgs := [] } lv1 s1 ∧
+      s1.count = 1 ∧ s1.ngens = s.ngens ∧ s1.gens = s.gens ∧ s1.flOrbits = Disjoint.new n ∧
+      s1.currentBest.toList = s.op.value.toList ∧ s1.firstLeaf.toList = s.op.value.toList ∧
+      s1.bestPerm.toList = s.op.order.toList ∧ lv1 = lv := by
   obtain ⟨hw, hG, hcov, haux, hoff⟩ := h
   obtain ⟨hg, hva, hvn, hb⟩ := hJ
   have hc := hI.core
@@ -204,7 +211,7 @@ theorem dfs_leaf_first (lv : List (Nat × Nat)) (s s1 : LS) (gh : Gh) (hI : MInv
     rw [c3] at this
     have : (IR.nodeAt (irG n nb) rf r gh.vs).cells ≤ n := this
     omega
-  obtain ⟨e1, e2, e3, e4, e5, e6, e7, e8, e9, e10, e11, e12, e13, e14, e15⟩ :=
+  obtain ⟨e1, e2, e3, e4, e5, e6, e7, e8, e9, e10, e11, e12, e13, e14, e15, e16, e17⟩ :=
     lf_shape hc hg hG.bpLen hG.fpLen hvlen (by omega) hcnt hs1
   have hnode : nodeL n nb rf r gh.vs gh.vs.length = IR.nodeAt (irG n nb) rf r gh.vs := by
     unfold nodeL; rw [List.take_length]
@@ -227,8 +234,7 @@ theorem dfs_leaf_first (lv : List (Nat × Nat)) (s s1 : LS) (gh : Gh) (hI : MInv
     refine ⟨h1, ?_, ?_, hc.part.perm, by rw [hce]; exact hval, hinv, lf_idxPath_congr hidx (by rw [h3]; exact hP)⟩
     · rw [← hnode]; exact target_none hc.part hmt hleaf
     · rw [← hnode, hmt.col, leaf_colOf hc.part hleaf]
-  refine ⟨lv, by rw [e1, e2, e3]; exact hlv,
-    ⟨{ vs := gh.vs.dropLast, oF := s.op.order.toList, vsF := gh.vs, vsB := gh.vs, bgs := [] }, ?_, ?_, ?_, ?_, ?_⟩⟩
+  refine ⟨lv, by rw [e1, e2, e3]; exact hlv, ⟨?_, ?_, ?_, ?_, ?_⟩, e4, e5, e16, e17, e6, e7, e8, rfl⟩
   · -- the walk
     have := walk_truncate (s' := s1) 0 hc.part hc.age (Nat.zero_le _)
       (fun hne => List.length_pos_iff.2 hne) (by rw [e1]; rfl) (by rw [e2]; rfl) (by rw [e3]; rfl) hw
@@ -292,6 +298,17 @@ theorem dfs_leaf_first (lv : List (Nat × Nat)) (s s1 : LS) (gh : Gh) (hI : MInv
     have : nodeL n nb rf r gh.vs gh.vs.length = r := by rw [hvs]; simp [nodeL, IR.nodeAt]
     rw [← this]
     exact hcompL
+
+set_option linter.unusedVariables false in
+include hnb hA hD hlenm in
+/-- the first leaf -/
+theorem dfs_leaf_first (lv : List (Nat × Nat)) (s s1 : LS) (gh : Gh) (hI : MInv n m nb s)
+    (hlv : LevelsOK s.op s.path s.choices lv) (hleaf : s.op.binDividers.len = n)
+    (hJ : CertM n m nb lv false s) (h : DNodev n nb rf r gh lv s) (hs1 : leafNode n m s = .ok s1)
+    (hJ1 : CertA n m nb lv s1) (hcnt : s.count = 0) :
+    ∃ lv1, LevelsOK s1.op s1.path s1.choices lv1 ∧ DA n nb rf r lv1 s1 := by
+  obtain ⟨lv1, h1, h2, _⟩ := dfs_leaf_first_v hnb hA hD hlenm lv s s1 gh hI hlv hleaf hJ h hs1 hJ1 hcnt
+  exact ⟨lv1, h1, _, h2⟩
 
 end
 end CanonF
